@@ -895,6 +895,15 @@ static unsigned long __plthook_entry(unsigned long *ret_addr, unsigned long chil
 			goto out;
 	}
 
+	if (unlikely(mtdp->in_exception) && !(special_flag & PLT_FL_EXCEPT)) {
+		/*
+		 * called from a landing pad: the frames below the return
+		 * address of this call were unwound (see __mcount_entry).
+		 */
+		mcount_rstack_rehook_exception(mtdp, (unsigned long)ret_addr);
+		mtdp->in_exception = false;
+	}
+
 	if (mcount_estimate_return)
 		mcount_rstack_inject_return(mtdp, ret_addr, sym->addr);
 
